@@ -14,7 +14,7 @@ EXPLANATION = (
     "channel whose only sender is the guard's Drop; every stream returned was inserted first.")
 # every anchor of these rules lives in the h3 crate: thorough tier repeats them on the feature-less build
 EXTRA_CONFIGS = ["h3-plain"]
-RULES = "C09-a guard tied to every handle (A12/A10/A4); C09-b shared by both halves (A4/A12); C09-c completion gating and draining (A2/A3/A7/A10)"
+RULES = "C09-a guard tied to every handle (A12/A10/A4); C09-b shared by both halves (A4/A12); C09-c completion gating and draining (A2/A3/A7/A10); shared through a proxy: C04-b (poll_accept_recv) under C09-c"
 
 SV = "h3::server::connection::Connection::"
 SEND = "tokio::sync::mpsc::unbounded::UnboundedSender::send"
@@ -192,3 +192,8 @@ def run(ctx):
     ctx.check(ins == [SV + "poll_accept_request_stream_internal"], "C09-c", "ongoing_streams.insert", "only when a stream is handed out",
               "ongoing_streams.insert is called from %s" % ins, str(ins))
     ctx.assume("tokio's unbounded channel delivers every sent id and registers the receiver's waker when poll_recv returns Pending")
+    # the peer's GOAWAY arrives on the control stream, which is found by the accept loop over the pending uni streams: a stream whose
+    # type has not arrived yet must not stop that loop (C04-b)
+    if not getattr(ctx, "nested", False):
+        from rules import C04 as _c04, shared as _sh
+        _c04.run(_sh.Proxy(ctx, ("C04-b",), "C09-c", only=("poll_accept_recv",)))
